@@ -147,9 +147,12 @@ def process_history(kind, backend, d):
              ('after run_tasks([Top(l1)]) on the cached Top', lambda: lab.run_tasks([top], disable_progress=True, disable_top=True)),
              ('after run_tasks([Leaf(1)], bust_cache=True)', lambda: (lab.run_tasks([l1], bust_cache=True, disable_progress=True, disable_top=True), model.add(l1)))]
     for name, act in steps:
-        if act:
-            act()
-        why = agree(name)
+        try:
+            if act:
+                act()
+            why = agree(name)
+        except Exception as ex:      # noqa -- a plain map never raises on these operations
+            why = f'[{kind}/{backend}] {name}: the Lab raised {type(ex).__name__}: {str(ex)[:200]}'
         if why:
             return why
     return None
